@@ -273,3 +273,328 @@ Theorem limit_semantics (L : Z) (n : nat) :
 Proof.
   pose proof (half_spec L) as H. repeat split; intros; lia.
 Qed.
+
+(* ---------------------------------------------------------------- tables *)
+
+Definition dflt_col : vec := mkVec None None [].
+
+Lemma col_indices_expected n : col_indices n = expected_cols n.
+Proof. reflexivity. Qed.
+
+Lemma col_indices_lt n j : In j (col_indices n) -> j < n.
+Proof.
+  unfold col_indices, truncated_cols, MAX_HEAD_COLS.
+  destruct (5 * 2 <? n) eqn:E.
+  - apply Nat.ltb_lt in E. intros H. apply in_app_or in H. destruct H as [H|H]; apply in_seq in H; lia.
+  - intros H. apply in_seq in H. lia.
+Qed.
+
+Lemma shown_cols_in cols j c : In (j, c) (shown_cols cols) -> In c cols /\ c = nth j cols dflt_col.
+Proof.
+  unfold shown_cols. intros H. apply in_map_iff in H. destruct H as [j' [Heq Hin]].
+  inversion Heq; subst. split; [|reflexivity]. apply nth_In. apply col_indices_lt. exact Hin.
+Qed.
+
+Lemma dtype_mem_In d l : dtype_mem d l = true <-> In d l.
+Proof.
+  induction l as [|x t IH]; simpl; [split; [discriminate|tauto]|].
+  rewrite orb_true_iff, IH, dtype_eqb_eq. split; intros [H|H]; auto.
+Qed.
+
+Lemma distinct_In x l : In x (distinct_dtypes l) <-> In x l.
+Proof.
+  induction l as [|y t IH]; simpl; [tauto|].
+  destruct (dtype_mem y (distinct_dtypes t)) eqn:E.
+  - rewrite IH. split; [auto|]. intros [->|H]; [|exact H].
+    apply IH. apply dtype_mem_In. exact E.
+  - simpl. rewrite IH. tauto.
+Qed.
+
+Lemma distinct_singleton l :
+  List.length (distinct_dtypes l) = 1 -> forall x y, In x l -> In y l -> x = y.
+Proof.
+  intros H x y Hx Hy. apply distinct_In in Hx. apply distinct_In in Hy.
+  destruct (distinct_dtypes l) as [|d [|e r]]; simpl in H; try discriminate.
+  destruct Hx as [<-|[]]. destruct Hy as [<-|[]]. reflexivity.
+Qed.
+
+Definition fmt_shown (glob : Z) (t : tbl) :=
+  map_res (fun jc : nat * vec => format_column (vdtype (snd jc)) (table_half glob t) (vdata (snd jc)))
+          (shown_cols (tcols t)).
+Definition dtypes_shown (t : tbl) : list dtype :=
+  map (fun jc : nat * vec => tok_of (vdtype (snd jc))) (shown_cols (tcols t)).
+Definition dtypes_all (t : tbl) : list dtype := map (fun c => tok_of (vdtype c)) (tcols t).
+
+Lemma table_inv glob t r :
+  repr_table glob t = Ret r ->
+  (first_cell_has_shape (tcols t) = true /\ r = TRTensor) \/
+  (tcols t = [] /\ r = TREmpty) \/
+  (tcols t <> [] /\
+   exists formatted disp_row,
+     fmt_shown glob t = Ret formatted /\
+     display_row (truncated_cols (t_ncols t)) (shown_cols (tcols t)) = Ret disp_row /\
+     r = TRTable disp_row (types_row (truncated_cols (t_ncols t)) (dtypes_shown t))
+                 (table_body (truncated_cols (t_ncols t)) formatted)
+                 (t_nrows t) (t_ncols t)
+                 (footer_types (truncated_cols (t_ncols t)) (show_types (dtypes_shown t)) (dtypes_all t))).
+Proof.
+  unfold repr_table. intros H.
+  destruct (first_cell_has_shape (tcols t)) eqn:Es.
+  - left. inversion H. split; reflexivity.
+  - right. destruct (Nat.eqb_spec (List.length (tcols t)) 0) as [E0|E0].
+    + left. inversion H. split; [|reflexivity]. destruct (tcols t); [reflexivity|discriminate].
+    + right. split; [intros Hn; rewrite Hn in E0; apply E0; reflexivity|].
+      fold (t_ncols t) in H.
+      assert (Hh : match trepr_rows t with Some r0 => half r0 | None => half glob end = table_half glob t)
+        by reflexivity.
+      rewrite Hh in H. fold (fmt_shown glob t) in H.
+      destruct (fmt_shown glob t) as [formatted|]; [|discriminate]. cbn [bind] in H.
+      destruct (display_row (truncated_cols (t_ncols t)) (shown_cols (tcols t))) as [dr|]; [|discriminate].
+      cbn [bind] in H.
+      match type of H with (if ?c then _ else _) = _ => destruct c end; [|discriminate].
+      inversion H. exists formatted, dr. repeat split.
+Qed.
+
+Lemma name_cell_total jd : name_cell jd <> Exn.
+Proof.
+  unfold name_cell. destruct (snd jd) as [o|]; simpl; [|discriminate].
+  destruct (n_eq_dots o); [discriminate|].
+  pose proof (needs_quote_total o) as H. destruct (needs_quote o); [discriminate|contradiction].
+Qed.
+
+Lemma display_row_total tr shown : display_row tr shown <> Exn.
+Proof.
+  unfold display_row. match goal with |- (if ?c then _ else _) <> _ => destruct c end; [|discriminate].
+  match goal with |- bind ?m _ <> _ => assert (Hm : m <> Exn) by (apply map_res_ok; intros; apply name_cell_total);
+    destruct m; [discriminate|contradiction] end.
+Qed.
+
+Lemma insert_at_forall {A} (P : A -> Prop) k x (l : list A) :
+  P x -> Forall P l -> Forall P (insert_at k x l).
+Proof.
+  intros Hx Hl. unfold insert_at. apply Forall_app. split.
+  - apply Forall_forall. intros y Hy. rewrite Forall_forall in Hl. apply Hl. eapply In_firstn. exact Hy.
+  - constructor; [exact Hx|]. apply Forall_forall. intros y Hy. rewrite Forall_forall in Hl. apply Hl.
+    eapply In_skipn. exact Hy.
+Qed.
+
+(* every formatted column has the same number of lines, given a rectangular table *)
+Lemma fmt_shown_lengths glob t formatted :
+  rectangular t -> fmt_shown glob t = Ret formatted ->
+  Forall (fun l => List.length l = List.length (expected_rows (table_half glob t) (t_nrows t))) formatted.
+Proof.
+  intros Hr H. unfold fmt_shown in H. apply Forall_forall. intros l Hl.
+  apply In_nth_error in Hl. destruct Hl as [k Hk].
+  pose proof (map_res_ret _ _ _ H) as [Hlen Hn].
+  assert (Hk' : k < List.length (shown_cols (tcols t))).
+  { rewrite <- Hlen. apply nth_error_Some. congruence. }
+  destruct (nth_error (shown_cols (tcols t)) k) as [[j c]|] eqn:Ejc; [|apply nth_error_None in Ejc; lia].
+  destruct (Hn k (j, c) Ejc) as [y [Hy Hf]]. rewrite Hk in Hy. inversion Hy; subst y.
+  cbn [snd] in Hf. apply format_column_length in Hf. rewrite Hf.
+  apply nth_error_In in Ejc. apply shown_cols_in in Ejc. destruct Ejc as [Hin _].
+  rewrite (Hr c Hin). reflexivity.
+Qed.
+
+Lemma table_body_lengths tr formatted m :
+  formatted <> [] -> Forall (fun l => List.length l = m) formatted ->
+  Forall (fun c => body_len c = m) (table_body tr formatted).
+Proof.
+  intros Hne H. unfold table_body.
+  assert (Hb : Forall (fun c => body_len c = m) (map CItems formatted)).
+  { apply Forall_forall. intros c Hc. apply in_map_iff in Hc. destruct Hc as [l [<- Hl]].
+    rewrite Forall_forall in H. simpl. apply H. exact Hl. }
+  destruct tr; [|exact Hb].
+  apply insert_at_forall; [|exact Hb].
+  destruct formatted as [|l0 r]; [contradiction|]. simpl.
+  inversion H as [|? ? Hl0 Hr0]. exact Hl0.
+Qed.
+
+Lemma shown_cols_nonempty cols : cols <> [] -> shown_cols cols <> [].
+Proof.
+  intros Hne. unfold shown_cols, col_indices, truncated_cols, MAX_HEAD_COLS.
+  destruct cols as [|c r]; [contradiction|]. simpl List.length.
+  destruct (5 * 2 <? S (List.length r)); simpl; discriminate.
+Qed.
+
+Lemma fmt_shown_nonempty glob t formatted :
+  tcols t <> [] -> fmt_shown glob t = Ret formatted -> formatted <> [].
+Proof.
+  intros Hne H. unfold fmt_shown in H. apply map_res_ret in H. destruct H as [Hlen _].
+  pose proof (shown_cols_nonempty _ Hne) as Hs.
+  destruct formatted; [|discriminate]. destruct (shown_cols (tcols t)); [contradiction|discriminate].
+Qed.
+
+Definition cell_ok (dt : option dtype) (s : vshape) : Prop := fits dt s /\ s <> VVector.
+
+Theorem table_total glob t :
+  rectangular t ->
+  (forall c, In c (tcols t) -> well_typed_vec c /\ no_vector_elements c) ->
+  repr_table glob t <> Exn.
+Proof.
+  intros Hr Hc. unfold repr_table.
+  destruct (first_cell_has_shape (tcols t)); [discriminate|].
+  destruct (Nat.eqb_spec (List.length (tcols t)) 0) as [E0|E0]; [discriminate|].
+  assert (Hne : tcols t <> []) by (intros Hn; rewrite Hn in E0; apply E0; reflexivity).
+  assert (Hh : match trepr_rows t with Some r0 => half r0 | None => half glob end = table_half glob t)
+    by reflexivity.
+  rewrite Hh. fold (fmt_shown glob t).
+  assert (Hf : fmt_shown glob t <> Exn).
+  { unfold fmt_shown. apply map_res_ok. intros [j c] Hin. cbn [snd].
+    apply shown_cols_in in Hin. destruct Hin as [Hin _]. destruct (Hc c Hin) as [Hw Hn].
+    apply format_column_total. intros s Hs. split; [apply Hw; exact Hs|].
+    intros ->. apply Hn. exact Hs. }
+  destruct (fmt_shown glob t) as [formatted|] eqn:Ef; [|contradiction]. cbn [bind].
+  pose proof (display_row_total (truncated_cols (List.length (tcols t))) (shown_cols (tcols t))) as Hd.
+  destruct (display_row (truncated_cols (List.length (tcols t))) (shown_cols (tcols t))) as [dr|];
+    [|contradiction].
+  cbn [bind].
+  pose proof (fmt_shown_lengths _ _ _ Hr Ef) as Hl.
+  pose proof (table_body_lengths (truncated_cols (List.length (tcols t))) formatted _
+                (fmt_shown_nonempty _ _ _ Hne Ef) Hl) as Hb.
+  set (body := table_body (truncated_cols (List.length (tcols t))) formatted) in *.
+  match goal with |- (if ?c then _ else _) <> _ => assert (Hchk : c = true) end.
+  { apply forallb_forall. intros c Hin. apply Nat.leb_le.
+    rewrite Forall_forall in Hb. rewrite (Hb c Hin).
+    destruct body as [|c0 r]; [destruct Hin|]. rewrite (Hb c0 (or_introl eq_refl)). lia. }
+  rewrite Hchk. discriminate.
+Qed.
+
+Lemma dtypes_shown_spec t :
+  map Some (dtypes_shown t) = map (fun j => Some (tok_of (vdtype (col t j)))) (expected_cols (t_ncols t)).
+Proof.
+  unfold dtypes_shown, shown_cols. rewrite !map_map. reflexivity.
+Qed.
+
+Lemma types_row_spec t tr :
+  types_row (truncated_cols (t_ncols t)) (dtypes_shown t) = Some tr -> tr = shown_types t.
+Proof.
+  unfold types_row, shown_types. destruct (show_types (dtypes_shown t)); [|discriminate].
+  intros H. inversion H. rewrite dtypes_shown_spec. reflexivity.
+Qed.
+
+Theorem table_footer glob t r :
+  repr_table glob t = Ret r ->
+  match r with
+  | TREmpty => tcols t = []
+  | TRTensor => first_cell_has_shape (tcols t) = true
+  | TRTable _ types _ frows fcols ftys =>
+      frows = t_nrows t /\ fcols = t_ncols t /\
+      (forall tr, types = Some tr -> tr = shown_types t) /\
+      match ftys with
+      | FMixed => types = Some (shown_types t)
+      | FOne d => forall c, In c (tcols t) -> tok_of (vdtype c) = d
+      | FList l => l = listed_types t
+      end
+  end.
+Proof.
+  intros H. apply table_inv in H.
+  destruct H as [[Hs ->]|[[Hc ->]|[Hne [formatted [dr [_ [_ ->]]]]]]]; [exact Hs|exact Hc|].
+  split; [reflexivity|]. split; [reflexivity|]. split; [apply types_row_spec|].
+  unfold footer_types.
+  destruct (show_types (dtypes_shown t)) eqn:Es.
+  - unfold types_row. rewrite Es. unfold shown_types. rewrite dtypes_shown_spec. reflexivity.
+  - destruct (Nat.eqb_spec (List.length (distinct_dtypes (dtypes_all t))) 1) as [E1|E1].
+    + intros c Hc.
+      assert (Hin : In (tok_of (vdtype c)) (dtypes_all t)).
+      { unfold dtypes_all. apply in_map_iff. exists c. split; [reflexivity|exact Hc]. }
+      apply (distinct_singleton _ E1); [exact Hin|].
+      unfold dtypes_all. destruct (tcols t) as [|c0 r]; [contradiction|]. left. reflexivity.
+    + unfold listed_types. fold (dtypes_all t). reflexivity.
+Qed.
+
+Theorem table_preview glob t disp types body fr fc ft :
+  repr_table glob t = Ret (TRTable disp types body fr fc ft) ->
+  rectangular t -> (forall c, In c (tcols t) -> no_dots_elements c) ->
+  exists ls,
+    body = (if cols_truncated (t_ncols t)
+            then insert_at MAX_HEAD_COLS
+                           (CDots (List.length (expected_rows (table_half glob t) (t_nrows t))))
+                           (map CItems ls)
+            else map CItems ls) /\
+    List.length ls = List.length (expected_cols (t_ncols t)) /\
+    Forall (fun l => map row_of l = expected_rows (table_half glob t) (t_nrows t)) ls.
+Proof.
+  intros H Hr Hd. apply table_inv in H.
+  destruct H as [[_ Hx]|[[_ Hx]|[Hne [formatted [dr [Hf [_ Hx]]]]]]]; try discriminate.
+  inversion Hx; subst. exists formatted.
+  pose proof (fmt_shown_lengths _ _ _ Hr Hf) as Hl.
+  pose proof (fmt_shown_nonempty _ _ _ Hne Hf) as Hn.
+  split; [|split].
+  - unfold table_body. change (truncated_cols (t_ncols t)) with (cols_truncated (t_ncols t)).
+    destruct (cols_truncated (t_ncols t)); [|reflexivity].
+    destruct formatted as [|l0 r]; [contradiction|]. simpl.
+    inversion Hl as [|? ? Hl0 _]. rewrite Hl0. reflexivity.
+  - unfold fmt_shown in Hf. apply map_res_ret in Hf. destruct Hf as [Hlen _].
+    rewrite Hlen. unfold shown_cols. rewrite map_length. reflexivity.
+  - apply Forall_forall. intros l Hin.
+    apply In_nth_error in Hin. destruct Hin as [k Hk].
+    unfold fmt_shown in Hf. pose proof (map_res_ret _ _ _ Hf) as [Hlen Hnth].
+    assert (Hk' : k < List.length (shown_cols (tcols t))).
+    { rewrite <- Hlen. apply nth_error_Some. congruence. }
+    destruct (nth_error (shown_cols (tcols t)) k) as [[j c]|] eqn:Ejc; [|apply nth_error_None in Ejc; lia].
+    destruct (Hnth k (j, c) Ejc) as [y [Hy Hfc]]. rewrite Hk in Hy. inversion Hy; subst y.
+    cbn [snd] in Hfc.
+    apply nth_error_In in Ejc. apply shown_cols_in in Ejc. destruct Ejc as [Hin _].
+    rewrite <- (Hr c Hin). eapply format_column_rows; [exact Hfc|]. apply Hd. exact Hin.
+Qed.
+
+Lemma display_cells_spec (shown : list (nat * vec)) r :
+  (forall jc, In jc shown -> name_not_dots (snd jc)) ->
+  map_res name_cell (map (fun jc => (fst jc, display_name (snd jc))) shown) = Ret r ->
+  r = map (fun jc => HName (fst jc)) shown.
+Proof.
+  intros Hd H.
+  apply (map_res_map name_cell (fun y => y) (fun jd => HName (fst jd))) in H.
+  - rewrite map_id in H. rewrite H, map_map. reflexivity.
+  - intros [j d] y Hin Hy. apply in_map_iff in Hin. destruct Hin as [[j' c] [Heq Hin]].
+    simpl in Heq. inversion Heq; subst. unfold name_cell in Hy. cbn [fst snd] in Hy.
+    unfold display_name in Hy. specialize (Hd (j, c) Hin). unfold name_not_dots in Hd. cbn [snd] in Hd.
+    destruct (vname c) as [o|]; simpl in Hy.
+    + assert (Ed : n_eq_dots (n_to_str o) = false).
+      { specialize (Hd o eq_refl). destruct o; simpl in *; exact Hd. }
+      rewrite Ed in Hy. destruct (needs_quote (n_to_str o)); [|discriminate]. simpl in Hy.
+      inversion Hy. reflexivity.
+    + inversion Hy. reflexivity.
+Qed.
+
+Theorem table_headers glob t disp types body fr fc ft :
+  repr_table glob t = Ret (TRTable disp types body fr fc ft) ->
+  (forall j, In j (expected_cols (t_ncols t)) -> name_not_dots (col t j)) ->
+  match disp with
+  | Some row => row = shown_names t
+  | None => forall j, In j (expected_cols (t_ncols t)) -> ~ has_shown_name (col t j)
+  end.
+Proof.
+  intros H Hd. apply table_inv in H.
+  destruct H as [[_ Hx]|[[_ Hx]|[Hne [formatted [dr [_ [Hdisp Hx]]]]]]]; try discriminate.
+  inversion Hx; subst. clear Hx.
+  assert (Hd' : forall jc, In jc (shown_cols (tcols t)) -> name_not_dots (snd jc)).
+  { intros [j c] Hin. unfold shown_cols in Hin. apply in_map_iff in Hin. destruct Hin as [j' [Heq Hin]].
+    inversion Heq; subst. cbn [snd]. apply Hd. exact Hin. }
+  unfold display_row in Hdisp.
+  match type of Hdisp with (if ?c then _ else _) = _ => destruct c eqn:Eany end.
+  - destruct (map_res name_cell
+               (map (fun jc : nat * vec => (fst jc, display_name (snd jc))) (shown_cols (tcols t))))
+      as [r|] eqn:Er; [|discriminate].
+    cbn [bind] in Hdisp. inversion Hdisp; subst. clear Hdisp.
+    apply display_cells_spec in Er; [|exact Hd']. subst r.
+    unfold shown_names, shown_cols. rewrite map_map. cbn [fst]. reflexivity.
+  - inversion Hdisp; subst. clear Hdisp.
+    intros j Hj [o [Ho He]].
+    assert (Hfalse : existsb (fun jd : nat * option nobj => name_counts (snd jd))
+              (map (fun jc : nat * vec => (fst jc, display_name (snd jc))) (shown_cols (tcols t))) = true).
+    { apply existsb_exists. exists (j, display_name (col t j)). split.
+      - apply in_map_iff. exists (j, col t j). split; [reflexivity|].
+        unfold shown_cols. apply in_map_iff. exists j. split; [reflexivity|exact Hj].
+      - cbn [snd]. unfold display_name. rewrite Ho. simpl.
+        specialize (Hd j Hj o Ho).
+        destruct o as [e d|e d]; simpl in *; rewrite He, Hd; reflexivity. }
+    rewrite Hfalse in Eany. discriminate.
+Qed.
+
+(* ---------------------------------------------------------------- purity *)
+
+Theorem repr_vector_pure st : fst (repr_vector_st st) = st.
+Proof. reflexivity. Qed.
+Theorem repr_table_pure st : fst (repr_table_st st) = st.
+Proof. reflexivity. Qed.
